@@ -34,5 +34,7 @@ m=json.load(open(p)); m['detected_by']=[{'check':sys.argv[2]+' quick','result':s
 PY
   echo "$id $prop $verdict"
 done
+# rows of seeds not re-run this time are kept
+if [ -f $OUT ]; then grep -E '^\| C[0-9]' $OUT | while IFS= read -r row; do rid=$(echo "$row" | awk -F'|' '{gsub(/ /,"",$2); print $2}'); grep -q "^| $rid |" $TMP || echo "$row" >> $TMP; done; fi
 { echo "# Seeded changes vs checks (quick tier, VERIF_SEED=${VERIF_SEED:-1})"; echo; echo "| seed | breaks | result | first signature |"; echo "|---|---|---|---|"; sort $TMP; } > $OUT
 rm -f $TMP
